@@ -556,6 +556,43 @@ impl World {
         }
     }
 
+    /// Returns true when a violation was recorded.
+    fn probe_lost_wakeups(&mut self) -> bool {
+        let mut parked = Vec::new();
+        self.exec.parked_tasks(&mut parked);
+        let mut ready = Vec::new();
+        for t in parked {
+            let bsteps = self.stats.broker_steps;
+            let outcome = self.exec.poll(t);
+            self.process_tap();
+            self.exec.ready_tasks(&mut ready);
+            let name = self.exec.name(t).to_string();
+            let progressed = match outcome {
+                PollOutcome::Panicked(info) => {
+                    self.on_panic(&format!("task '{name}' (poll at quiescence)"), info);
+                    return true;
+                }
+                PollOutcome::Done => true,
+                PollOutcome::Pending => {
+                    !ready.is_empty()
+                        || self.stats.broker_steps != bsteps
+                        || (0..self.actors.len()).any(|i| self.actor_can_recv(i))
+                }
+            };
+            if progressed {
+                let v = Violation::new(
+                    "liveness.lost-wakeup",
+                    &[Prop::C09, Prop::C11, Prop::C06],
+                    format!("at quiescence task '{name}' was parked, yet polling it once more made progress: the event it waited for had happened without waking it"),
+                );
+                self.violate(v);
+                return true;
+            }
+        }
+        *self.stats.probes.entry("lost-wakeup-probe-evaluated").or_insert(0) += 1;
+        false
+    }
+
     fn match_stream(&self, i: usize) -> Option<Violation> {
         let a = &self.actors[i];
         let obs = &a.observed;
@@ -955,6 +992,11 @@ pub fn run_wire(plan: &WirePlan, replay: Option<Vec<u32>>, tracing: bool) -> Run
             {
                 w.stats.steps = t;
                 continue;
+            }
+            // Lost wake-ups: nothing is in flight now, so polling a parked task once more must not
+            // change anything.
+            if w.probe_lost_wakeups() {
+                break;
             }
             if !w.advance_teardown(&mut stage, plan.teardown) {
                 break;
